@@ -128,13 +128,18 @@ const (
 	tripleDES    cipherType = 3
 )
 
-func readMPInt(r io.Reader) (*big.Int, error) {
+func readMPInt(r *bytes.Reader) (*big.Int, error) {
 	l := make([]byte, 2)
 	_, err := r.Read(l)
 	if err != nil {
 		return nil, err
 	}
-	b := make([]byte, (binary.BigEndian.Uint16(l)+7)/8)
+	n := (int(binary.BigEndian.Uint16(l)) + 7) / 8
+	if n > r.Len() {
+		// never size a buffer from a length field beyond the bytes that are actually there
+		return nil, io.ErrUnexpectedEOF
+	}
+	b := make([]byte, n)
 	_, err = r.Read(b)
 	if err != nil {
 		return nil, err
@@ -142,13 +147,17 @@ func readMPInt(r io.Reader) (*big.Int, error) {
 	return big.NewInt(0).SetBytes(b), nil
 }
 
-func readString(r io.Reader) (string, error) {
+func readString(r *bytes.Reader) (string, error) {
 	l := make([]byte, 4)
 	_, err := r.Read(l)
 	if err != nil {
 		return "", err
 	}
-	b := make([]byte, binary.BigEndian.Uint32(l))
+	n := binary.BigEndian.Uint32(l)
+	if uint64(n) > uint64(r.Len()) {
+		return "", io.ErrUnexpectedEOF
+	}
+	b := make([]byte, n)
 	_, err = r.Read(b)
 	if err != nil {
 		return "", err
